@@ -174,6 +174,9 @@ struct RegSut {
     prelude: Vec<usize>,
     /// pool indices the operations range over (empty = 0..n)
     movable: Vec<usize>,
+    /// after the prelude, this many further counters are registered and then all unregistered again (a registry that
+    /// has been large); the reference registry is unaffected by a completed wave
+    wave: usize,
 }
 
 impl Sut for RegSut {
@@ -200,6 +203,24 @@ impl Sut for RegSut {
         for &i in &self.prelude {
             if reg.register(real_collector(i, &self.pool[i].1)).is_err() || model.register(i, &self.pool[i].1) != Exp::Ok {
                 return Err(Disagreement { signature: "prelude".into(), what: format!("prelude registration of {} failed", self.pool[i].0), transcript });
+            }
+        }
+        if self.wave > 0 {
+            let wave: Vec<prometheus::IntCounter> = (0..self.wave).map(|k| prometheus::IntCounter::new(format!("wave_{:05}", k), "hw").unwrap()).collect();
+            for (k, c) in wave.iter().enumerate() {
+                if let Err(e) = reg.register(Box::new(c.clone())) {
+                    return Err(Disagreement { signature: "wave-register".into(), what: format!("registering fresh counter wave_{:05} into a registry of {} collectors failed: {}", k, self.prelude.len() + k, e), transcript });
+                }
+            }
+            for (k, c) in wave.iter().enumerate() {
+                if let Err(e) = reg.unregister(Box::new(c.clone())) {
+                    return Err(Disagreement { signature: "wave-unregister".into(), what: format!("unregistering wave_{:05} failed: {}", k, e), transcript });
+                }
+            }
+            let g: Vec<String> = reg.gather().iter().map(|mf| RFamily::from_proto(mf).key(true)).collect();
+            let eg = model.gather(&self.pool);
+            if g != eg {
+                return Err(Disagreement { signature: "gather-differs-after-wave".into(), what: format!("after a wave of {} registrations and unregistrations gather() returned {:?}, reference {:?}", self.wave, g, eg), transcript });
             }
         }
         let name = |o: &Op| match o {
@@ -393,7 +414,7 @@ fn main() {
             std::process::exit(vsched::replay_cli("C06", p, &doc, reg_driver_from_spec));
         }
         let ops: Vec<Op> = replay_value_ops(&doc).iter().map(|s| parse_op(s, &pool)).collect();
-        let sut = RegSut { n: pool.len(), pool, prelude: vec![], movable: vec![] };
+        let sut = RegSut { n: pool.len(), pool, prelude: vec![], movable: vec![], wave: 0 };
         let r1 = sut.replay(&ops);
         let r2 = sut.replay(&ops);
         match (&r1, &r2) {
@@ -424,7 +445,7 @@ fn main() {
     );
     rep.bounds = json!({"collectors": n, "depth_safety_net": depth});
     let cpool = pool.clone();
-    let out = explore(RegSut { pool, n, prelude: vec![], movable: vec![] }, depth, if thorough { 1500 } else { 120 }, "registry", &mut rep);
+    let out = explore(RegSut { pool, n, prelude: vec![], movable: vec![], wave: 0 }, depth, if thorough { 1500 } else { 120 }, "registry", &mut rep);
     if !out.fixpoint {
         rep.exhaustive = false;
         if rep.cap_hit.is_none() {
@@ -444,8 +465,16 @@ fn main() {
         big.push(("overlap", vec![d("x_extra", "hx"), d(max_name, "hb")]));
         big.push(("fresh", vec![d("fresh", "hf")]));
         let movable = vec![imin, imax, imed, 24, 25];
-        let out2 = explore(RegSut { n: big.len(), pool: big, prelude: (0..24).collect(), movable }, 14, if thorough { 600 } else { 100 }, "registry-with-24-collectors", &mut rep);
+        let out2 = explore(RegSut { n: big.len(), pool: big.clone(), prelude: (0..24).collect(), movable: movable.clone(), wave: 0 }, 14, if thorough { 600 } else { 100 }, "registry-with-24-collectors", &mut rep);
         if !out2.fixpoint {
+            rep.exhaustive = false;
+        }
+        // the same 24 collectors after a wave of 9000 (thorough: 40000) further registrations that were all undone again
+        let wave = if thorough { 40000 } else { 9000 };
+        let t0 = std::time::Instant::now();
+        let out3 = explore(RegSut { n: big.len(), pool: big, prelude: (0..24).collect(), movable: vec![movable[1], movable[3], movable[4]], wave }, 10, 600, "registry-after-a-wave", &mut rep);
+        eprintln!("registry-after-a-wave({}): {:.1}s", wave, t0.elapsed().as_secs_f64());
+        if !out3.fixpoint {
             rep.exhaustive = false;
         }
     }
